@@ -119,6 +119,8 @@ Fixpoint uses_of (ss : list stmt) : list expr :=
   | SUse e :: r => e :: uses_of r
   end.
 
+(* a speculative evaluation that runs out of fuel is treated like "not ready" (the expression is deferred and forced
+   at the end with the same fuel): benign, the final evaluation decides *)
 Definition try_now (fuel : nat) (T : ltable) (e : expr) : option Z :=
   match ev true fuel T [] e with Some (Ok v) => Some v | _ => None end.
 
@@ -207,3 +209,14 @@ Definition move_def (ss : list stmt) (i j : nat) : list stmt :=
   | Some (SDef n d) => insert_at j (SDef n d) (remove_nth i ss)
   | _ => ss
   end.
+
+(* At link time the code forces every symbol, used or not ("Resolve all symbols, in case some have not been
+   used", compile_and_link_files): an unused definition that is undefined, cyclic or divides by zero fails the build.
+   [close ss] makes that explicit: one more use per definition, in definition order, after everything else. *)
+Definition forced (ss : list stmt) : list stmt := map (fun nd => SUse (Sym (fst nd))) (defs_of ss).
+Definition close (ss : list stmt) : list stmt := ss ++ forced ss.
+
+Definition is_fail (r : res Z) : bool := match r with Ok _ => false | _ => true end.
+
+(* success / failure of the whole build *)
+Definition build_fails (fuel : nat) (ss : list stmt) : bool := existsb is_fail (lazy_run fuel (close ss)).
